@@ -22,7 +22,7 @@ fn in_bounds(s: &str) -> bool {
     }
     let b = s.as_bytes();
     let n = b.len();
-    let mut budget: u32 = 100;
+    let mut budget: u32 = 600;
     let mut i = 0;
     while i < n {
         let c = b[i];
